@@ -22,6 +22,10 @@ def setup_dir(root, sc):
     if pre == "present":
         os.makedirs(os.path.dirname(op), exist_ok=True)
         open(op, "w").write("// previous content\n")
+    elif pre == "present-long":
+        # longer than anything the tool generates: a successful run must REPLACE it, not overwrite its head
+        os.makedirs(os.path.dirname(op), exist_ok=True)
+        open(op, "w").write("// previous content\n" * 20000)
     elif pre == "dir":
         os.makedirs(op)
     elif pre == "parent-missing":
